@@ -84,9 +84,9 @@ func SmallAtoms() []*ex.E {
 }
 
 type fn struct {
-	name   string
-	ref    refeval.Func
-	impl   function.Function
+	name string
+	ref  refeval.Func
+	impl function.Function
 }
 
 func mkfn(name string, params []function.Parameter, varp *function.Parameter, ty func([]cty.Value) cty.Type, impl func([]cty.Value) (cty.Value, bool)) fn {
@@ -182,4 +182,165 @@ func RefScope() *refeval.Scope {
 		fm[f.name] = f.ref
 	}
 	return &refeval.Scope{Vars: Vars, Funcs: fm}
+}
+
+// FreeVars lists the pool variables an AST refers to (syntactically, not
+// counting names bound by enclosing for constructs), in first-use order.
+func FreeVars(e *ex.E) []string {
+	var out []string
+	for _, n := range FreeNames(e) {
+		if _, ok := Vars[n]; ok {
+			out = append(out, n)
+		}
+	}
+	return out
+}
+
+// Closed reports whether every free name of e is a pool variable, i.e. e can
+// be evaluated on its own in the pool scope.
+func Closed(e *ex.E) bool {
+	for _, n := range FreeNames(e) {
+		if _, ok := Vars[n]; !ok {
+			return false
+		}
+	}
+	return true
+}
+
+// FreeNames lists every name that occurs free in e, in first-use order.
+func FreeNames(e *ex.E) []string {
+	var out []string
+	seen := map[string]bool{}
+	var walk func(e *ex.E, bound map[string]bool)
+	var walkParts func(ps []ex.Part, bound map[string]bool)
+	with := func(bound map[string]bool, names ...string) map[string]bool {
+		b2 := map[string]bool{}
+		for k := range bound {
+			b2[k] = true
+		}
+		for _, n := range names {
+			if n != "" {
+				b2[n] = true
+			}
+		}
+		return b2
+	}
+	walkParts = func(ps []ex.Part, bound map[string]bool) {
+		for _, p := range ps {
+			switch p.K {
+			case "interp":
+				walk(p.E, bound)
+			case "if":
+				walk(p.E, bound)
+				walkParts(p.Then, bound)
+				walkParts(p.Else, bound)
+			case "for":
+				walk(p.E, bound)
+				walkParts(p.Then, with(bound, p.KeyVar, p.ValVar))
+			}
+		}
+	}
+	walk = func(e *ex.E, bound map[string]bool) {
+		if e == nil {
+			return
+		}
+		switch e.K {
+		case "var":
+			if !bound[e.S] && !seen[e.S] {
+				seen[e.S] = true
+				out = append(out, e.S)
+			}
+			return
+		case "for":
+			walk(e.A[0], bound)
+			b2 := with(bound, e.KeyVar, e.ValVar)
+			walk(e.A[1], b2)
+			walk(e.A[2], b2)
+			walk(e.A[3], b2)
+			return
+		case "tmpl":
+			walkParts(e.Parts, bound)
+			return
+		}
+		for _, c := range e.Children() {
+			walk(*c, bound)
+		}
+	}
+	walk(e, map[string]bool{})
+	return out
+}
+
+// WithVar returns a copy of Vars with one variable replaced.
+func WithVar(name string, v cty.Value) map[string]cty.Value {
+	m := make(map[string]cty.Value, len(Vars))
+	for k, x := range Vars {
+		m[k] = x
+	}
+	m[name] = v
+	return m
+}
+
+// Alternatives returns other known contents of the same type as the pool
+// variable (used as the second run of two-run relations), simplest first.
+func Alternatives(name string) []cty.Value {
+	v := Vars[name]
+	ty := v.Type()
+	n := func(i int64) cty.Value { return cty.NumberIntVal(i) }
+	s := cty.StringVal
+	o := func(a int64, b string) cty.Value {
+		return obj(map[string]cty.Value{"a": n(a), "b": s(b), "0": s("zero"), "c": cty.TupleVal([]cty.Value{n(a), n(2)})})
+	}
+	lo := func(a int64, b ...int64) cty.Value {
+		var bs []cty.Value
+		for _, x := range b {
+			bs = append(bs, n(x))
+		}
+		if len(bs) == 0 {
+			return obj(map[string]cty.Value{"a": n(a), "b": cty.ListValEmpty(cty.Number)})
+		}
+		return obj(map[string]cty.Value{"a": n(a), "b": cty.ListVal(bs)})
+	}
+	var out []cty.Value
+	switch {
+	case ty == cty.Number:
+		out = []cty.Value{n(7), cty.NumberFloatVal(2.5), n(0), n(1)}
+	case ty == cty.String:
+		out = []cty.Value{s("b"), s("0"), s("false"), s("a")}
+	case ty == cty.Bool:
+		out = []cty.Value{cty.True, cty.False}
+	case name == "nl":
+		out = []cty.Value{cty.ListVal([]cty.Value{s("a")})}
+	case name == "no":
+		out = []cty.Value{obj(map[string]cty.Value{"a": n(1)})}
+	case name == "ln":
+		out = []cty.Value{cty.ListVal([]cty.Value{n(3), n(2), n(1)}), cty.ListVal([]cty.Value{n(1)}), cty.ListValEmpty(cty.Number)}
+	case name == "le" || name == "ls":
+		out = []cty.Value{cty.ListVal([]cty.Value{s("b"), s("a")}), cty.ListVal([]cty.Value{s("c")}), cty.ListValEmpty(cty.String), Vars["ls"]}
+	case name == "ss":
+		out = []cty.Value{cty.SetVal([]cty.Value{s("b"), s("c")}), cty.SetVal([]cty.Value{s("a")}), cty.SetValEmpty(cty.String)}
+	case name == "sn":
+		out = []cty.Value{cty.SetVal([]cty.Value{n(3)}), cty.SetValEmpty(cty.Number)}
+	case name == "mn":
+		out = []cty.Value{cty.MapVal(map[string]cty.Value{"a": n(5), "b": n(2)}), cty.MapVal(map[string]cty.Value{"c": n(1)}), cty.MapValEmpty(cty.Number)}
+	case name == "me":
+		out = []cty.Value{cty.MapVal(map[string]cty.Value{"a": s("x")})}
+	case name == "o":
+		out = []cty.Value{o(2, "x"), o(1, "y")}
+	case name == "t":
+		out = []cty.Value{cty.TupleVal([]cty.Value{n(2), s("a"), cty.True}), cty.TupleVal([]cty.Value{n(1), s("b"), cty.False})}
+	case name == "lo":
+		out = []cty.Value{cty.ListVal([]cty.Value{lo(5, 1), lo(2, 2, 3)}), cty.ListVal([]cty.Value{lo(1, 9)}), cty.ListVal([]cty.Value{lo(1, 1), lo(2), lo(3, 4)})}
+	case name == "oo":
+		out = []cty.Value{obj(map[string]cty.Value{
+			"a": obj(map[string]cty.Value{"b": obj(map[string]cty.Value{"c": n(2)})}),
+			"l": cty.TupleVal([]cty.Value{obj(map[string]cty.Value{"a": n(3)}), obj(map[string]cty.Value{"a": n(2)})}),
+		})}
+	}
+	var res []cty.Value
+	for _, a := range out {
+		if !a.RawEquals(v) {
+			res = append(res, a)
+		}
+	}
+	return res
 }
